@@ -4,6 +4,6 @@ CONSTANTS MaxCalls = 3
           ExtMax = 1
           ExtDepth = 3
           ZeroStatusFix = TRUE
-          InfoFix = FALSE
-INVARIANTS TypeOK L2ImpliesL1 HandlerOnlyAfterGate NoClientBytesBeforeCheckInStrict StrictPanicSilent Emit
+          InfoFix = TRUE
+INVARIANTS TypeOK L2ImpliesL1Pure HandlerOnlyAfterGate NoClientBytesBeforeCheckInStrict StrictPanicSilent Emit
 CHECK_DEADLOCK FALSE
